@@ -60,7 +60,13 @@ CLAIMED = {
              "keys of the wrapped database) the same three steps are proved (np_batch_begin / np_batch_op / np_batch_commit): after a "
              "normal exit nothing pre-existing is removed, every node of the new tree is present, and every ADDED key is a node of "
              "the new tree - no node that served only intermediate states of the block is added. Key-level statements; that bodies are "
-             "the encodings is C04's content-addressing. Tie: exact db, root and counts after every step, every exit kind and position.",
+             "the encodings is C04's content-addressing. The TREE-FREE world (Model/HexFree.lean FWorld: squash_changes over root hashes, a "
+             "ScratchDB view and the raw-level _set/_delete - no tree) moves in lockstep with the tree-carrying world through block "
+             "entry, every operation on the outer or the batch trie, and every kind of exit incl. failing commits (Free.lockstep_begin, "
+             "lockstep_op_outer, lockstep_op_batch, lockstep_end, Free.op_is_executor_op_view), given that the view the operated trie "
+             "reads is complete for its root; two specification subtleties were machine-found there (the view equals what ScratchDB "
+             "reads only for caches with unique keys - view_is_what_is_read, cache_keys_unique_* - and the counts slot). "
+             "Tie: exact db, root and counts after every step, every exit kind and position, for the tree-carrying AND the tree-free world.",
         technique="Lean 4 proof (invariants of the world executor) + correspondence check with fault injection",
         design_ref="6/C05"),
     "C06": dict(
